@@ -719,3 +719,84 @@ pub fn replace_nth(t: &Tm, i: usize, r: &Tm) -> Tm {
     let mut idx = (i % n) as isize;
     go(t, &mut idx, r)
 }
+
+// ------------------------------------------------------------------------------------------------
+// parsing model terms from the repository's s-expression syntax (Alpha naming: $a.. = 0.., $nK = K)
+// ------------------------------------------------------------------------------------------------
+
+pub fn name_of_alpha(s: &str) -> Option<Name> {
+    let s = s.strip_prefix('$')?;
+    if s.len() == 1 {
+        let c = s.as_bytes()[0];
+        if c.is_ascii_lowercase() {
+            return Some(c - b'a');
+        }
+    }
+    if let Some(r) = s.strip_prefix('n') {
+        return r.parse::<u8>().ok();
+    }
+    None
+}
+
+pub fn parse_tm_text(sig: &LangSig, text: &str) -> Result<Tm, String> {
+    let toks: Vec<String> = text
+        .replace('(', " ( ")
+        .replace(')', " ) ")
+        .split_whitespace()
+        .map(|s| s.to_string())
+        .collect();
+    let mut pos = 0;
+    let t = parse_tm_toks(sig, &toks, &mut pos)?;
+    if pos != toks.len() {
+        return Err(format!("trailing tokens in {text}"));
+    }
+    Ok(t)
+}
+
+fn parse_tm_toks(sig: &LangSig, toks: &[String], pos: &mut usize) -> Result<Tm, String> {
+    let t = toks.get(*pos).ok_or("unexpected end")?.clone();
+    if t == "(" {
+        *pos += 1;
+        let opn = toks.get(*pos).ok_or("unexpected end")?.clone();
+        *pos += 1;
+        let o = sig.op(&opn).ok_or(format!("unknown operator {opn}"))?.clone();
+        let mut args = Vec::new();
+        for f in &o.fields {
+            match f {
+                Field::Slot => {
+                    let s = toks.get(*pos).ok_or("unexpected end")?;
+                    args.push(Arg::S(name_of_alpha(s).ok_or(format!("bad slot {s}"))?));
+                    *pos += 1;
+                }
+                Field::PayU32 | Field::PaySym => {
+                    args.push(Arg::P(toks.get(*pos).ok_or("unexpected end")?.clone()));
+                    *pos += 1;
+                }
+                Field::Kid(nb) => {
+                    let mut bs = Vec::new();
+                    for _ in 0..*nb {
+                        let s = toks.get(*pos).ok_or("unexpected end")?;
+                        bs.push(name_of_alpha(s).ok_or(format!("bad slot {s}"))?);
+                        *pos += 1;
+                    }
+                    let k = parse_tm_toks(sig, toks, pos)?;
+                    args.push(Arg::K(bs, k));
+                }
+            }
+        }
+        if toks.get(*pos).map(|s| s.as_str()) != Some(")") {
+            return Err(format!("expected ) at token {}", *pos));
+        }
+        *pos += 1;
+        Ok(Tm { op: opn, args })
+    } else {
+        *pos += 1;
+        // bare: zero-field operator or payload
+        if let Some(o) = sig.op(&t) {
+            if o.fields.is_empty() {
+                return Ok(Tm { op: t, args: vec![] });
+            }
+        }
+        Ok(Tm { op: String::new(), args: vec![Arg::P(t)] })
+    }
+}
